@@ -2,6 +2,7 @@
 
 Protocol (model name `drange`; instants are microseconds since 0001-01-01, plain integer atoms):
   (drange run t0 t1 <bump>)     drange(t0, t1, bump);  bump ::= N | (int n) | (td <microseconds>) | (p <hex of the period string>)
+  (drange crun t0 t1 <bump>)    Calendar(...).drange(t0, t1, bump) for a bump that is not a 'kb' string (delegates to drange)
   (drange bump t <hex>)         dt_bump(t, period string) - ties the model's local dt_bump to the real one
 """
 import datetime
@@ -160,10 +161,20 @@ def generate(rng, tier):
     for _ in range(n):
         spec = rand_spec(rng)
         yield dict(tag=spec['kind'], lines=[line_of(spec)])
+    # Calendar.drange with a bump that does not end in 'b' is plain drange
+    for _ in range(n // 20):
+        spec = rand_spec(rng)
+        if isinstance(spec['bump'], str) and spec['bump'].lower().endswith('b'):
+            continue
+        yield dict(tag='calendar.drange', lines=[line_of(spec).replace('(drange run', '(drange crun')])
     # zero bumps: outside the statement, kept as a visible divergence class only
     for b in [0, TD(0), '0d', '0h', '0m', '0b']:
         t0 = rand_start(rng, True, dom28=True)
         yield dict(tag='zero', lines=[line_of(dict(t0=t0, t1=t0 + 9 * DAY, bump=b))])
+
+
+def new_state():
+    return {}
 
 
 def dec_bump(x):
@@ -184,6 +195,11 @@ def run_line(state, sx):
         if not isinstance(res, list):
             raise proto.Unencodable('drange returned %r' % type(res))
         return 'ok (L' + ''.join(' T:%d' % dt2us(t) for t in res) + ')'
+    if op == 'crun':
+        from pyg_base._drange import Calendar
+        cal = state.get('cal') or state.setdefault('cal', Calendar(None, t0=D(2000, 1, 1), t1=D(2001, 1, 1)))
+        res = cal.drange(us2dt(int(args[0])), us2dt(int(args[1])), dec_bump(args[2]))
+        return 'ok (L' + ''.join(' T:%d' % dt2us(t) for t in res) + ')'
     if op == 'bump':
         return 'ok T:%d' % dt2us(pyg_base.dt_bump(us2dt(int(args[0])), unhex(args[1])))
     return 'bad-op'
@@ -200,7 +216,7 @@ def compare(case, i, line, ir, mr):
 
 
 def nontrivial(line, reply):
-    if not line.startswith('(drange run'):
+    if not (line.startswith('(drange run') or line.startswith('(drange crun')):
         return False
     return reply == 'err ValueError' or (reply.startswith('ok') and reply.count('T:') >= 2)
 
